@@ -25,21 +25,33 @@ open Loop
 
 namespace Loop
 
-theorem job_def (l : LoopSt) (j : Nat) : job l j = l.jobs.getD j {} := rfl
+theorem job_def (l : LoopSt) (j : Nat) : job l j = getJob l.jobs j := rfl
 
-theorem job_of_ge (l : LoopSt) (j : Nat) (h : l.jobs.length ≤ j) : job l j = {} := by
-  simp [job, List.getD_eq_getElem?_getD, List.getElem?_eq_none h]
+theorem getJob_set (jobs : List JobRec) (k i : Nat) (x : JobRec) :
+    getJob (jobs.set k x) i = if i = k ∧ k < jobs.length then x else getJob jobs i := by
+  simp only [getJob, List.getD_eq_getElem?_getD, List.getElem?_set]
+  by_cases h : k = i
+  · subst h
+    by_cases h2 : k < jobs.length <;> simp [h2]
+  · have : ¬ i = k := fun e => h e.symm
+    simp [h, this]
+
+theorem getJob_of_ge (jobs : List JobRec) (j : Nat) (h : jobs.length ≤ j) : getJob jobs j = {} := by
+  simp [getJob, List.getD_eq_getElem?_getD, List.getElem?_eq_none h]
+
+theorem getJob_append_left (a b : List JobRec) (j : Nat) (h : j < a.length) :
+    getJob (a ++ b) j = getJob a j := by
+  simp [getJob, List.getD_eq_getElem?_getD, List.getElem?_append_left h]
+
+theorem getJob_append_self (a : List JobRec) (x : JobRec) : getJob (a ++ [x]) a.length = x := by
+  simp [getJob, List.getD_eq_getElem?_getD]
+
+theorem job_of_ge (l : LoopSt) (j : Nat) (h : l.jobs.length ≤ j) : job l j = {} :=
+  getJob_of_ge _ _ h
 
 theorem job_setJob (l : LoopSt) (k i : Nat) (x : JobRec) :
     job (setJob l k x) i = if i = k ∧ k < l.jobs.length then x else job l i := by
-  simp only [job, setJob, List.getD_eq_getElem?_getD, List.getElem?_set]
-  by_cases h : k = i
-  · subst h
-    by_cases h2 : k < l.jobs.length
-    · simp [h2]
-    · simp [h2]
-  · have : ¬ i = k := fun e => h e.symm
-    simp [h, this]
+  simp only [job, setJob, getJob_set]
 
 @[simp] theorem setJob_length (l : LoopSt) (k : Nat) (x : JobRec) :
     (setJob l k x).jobs.length = l.jobs.length := by simp [setJob]
